@@ -20,12 +20,16 @@ open Pg.C08 (Atom Key NotifyKind)
 /-! ## Generated obligations -/
 
 /-- Which entry points notify, and how, is what the model assumes: accessor writes and `append`
-under the flag, `rebind` as the caller says, `update` never, `clear`/`reverse`/`popitem` nobody. -/
+under the flag, `rebind` as the caller says, `update` never; `clear` / `popitem` / `sort` / `reverse`
+under the flag (THE TREE WITH fixes/C09-F55.patch; on the tree without it this obligation breaks and the
+oracle reports the known finding F55). -/
 theorem C09_table :
     genNotify .setKey = [.flag, .flag] ∧ genNotify .delKey = [.flag] ∧ genNotify .append = [.flag] ∧
     genNotify .extend = [.flag, .none, .none] ∧
     genNotify .rebind = [.param, .param, .param] ∧ genNotify .update = [.skip] ∧
-    genNotify .clear = [.none, .none] ∧ genNotify .reverse = [.none] ∧ genNotify .popitem = [.none] ∧
+    -- with fixes/C09-F55.patch: clear / popitem / sort / reverse notify under the flag
+    genNotify .clear = [.flag, .flag] ∧ genNotify .reverse = [.flag] ∧ genNotify .popitem = [.flag] ∧
+    genNotify .sort = [.flag] ∧ genDelIndexNormalized = true ∧
     -- the position-shifting list calls: `insert`, `__delitem__` (index and slice) and `__setitem__` (slice)
     -- notify under the flag; `pop` / `remove` have no notification of their own and delegate to `del self[i]`,
     -- `*=` to `clear` / `extend`
@@ -45,16 +49,14 @@ theorem C09_invalidate_table : genInvalidateOnWrite = true ∧ genResetOnSkip = 
 /-- Inside `notify_on_change(False)` nothing is delivered, whatever the call. -/
 theorem C09_silent_off (root : T) (recv : Path) (op : Op) :
     (step root recv false op).events = [] := by
-  cases op <;> simp only [step, finish, rawStep, Bool.false_and, Bool.false_eq_true, if_false, applyEdit_events_off] <;>
-    (repeat' split) <;> rfl
+  cases op <;> simp only [step, finish, Bool.false_and, Bool.false_eq_true, if_false, applyEdit_events_off,
+    applyKeyEdit_events_off] <;> (repeat' split) <;> first | rfl | exact applyEdit_events_off _ _ _ | exact applyKeyEdit_events_off _ _ _
 
-/-- `Dict.update` (skip_notification=True) and the mutators that notify nobody deliver nothing
-even when notification is enabled. -/
-theorem C09_silent_skip (n : Bool) (root : T) (recv : Path) (op : Op)
-    (h : op.kind = .update ∨ op.kind = .clear ∨ op.kind = .reverse ∨ op.kind = .popitem) :
-    (step root recv n op).events = [] := by
-  cases op <;> simp [Op.kind] at h <;>
-    simp only [step, finish, rawStep, Bool.false_and, Bool.false_eq_true, if_false] <;> (repeat' split) <;> rfl
+/-- `Dict.update` (skip_notification=True) delivers nothing even when notification is enabled. -/
+theorem C09_silent_skip (n : Bool) (root : T) (recv : Path) (kvs : List (Key × T)) :
+    (step root recv n (.update kvs)).events = [] := by
+  simp only [step, finish, Bool.false_and, Bool.false_eq_true, if_false]
+  (repeat' split) <;> rfl
 
 /-! ## The notification contract
 
@@ -185,7 +187,8 @@ theorem C09_truthful_edit_old (notifyOn : Bool) (op : Op) (xs : List T) (e : Edi
     (h : (match op with
       | .insert i v => editInsert i v xs | .delIdx i => editDelIdx i xs | .remove a => editRemove a xs
       | .delSlice a b st => editDelSlice a b st xs | .setSlice a b st vs => editSetSlice notifyOn a b st vs xs
-      | .imul k => editIMul k xs | _ => none) = some e) :
+      | .imul k => editIMul k xs | .clear => editClear xs | .reverse => editReverse xs | .sort => editSort xs
+      | _ => none) = some e) :
     ∀ x ∈ e.ents, x.2.1 = none ∨ x.2.1 = xs[x.1]? := by
   cases op <;> simp only [] at h <;> try (cases h; done)
   case insert i v => simp only [editInsert, Option.some.injEq] at h; subst h; simp
@@ -207,10 +210,24 @@ theorem C09_truthful_edit_old (notifyOn : Bool) (op : Op) (xs : List T) (e : Edi
       exact Or.inr rfl
   case imul k =>
     simp only [editIMul] at h; split at h
-    · simp only [Option.some.injEq] at h; subst h; simp
+    · simp only [editClear, Option.some.injEq] at h; subst h
+      intro x hx; exact Or.inr (by simpa using clearEnts_old 0 xs x hx)
     · simp only [Option.some.injEq] at h; subst h
       intro x hx
       exact Or.inl (appendEnts_old _ _ x hx)
+  case clear =>
+    simp only [editClear, Option.some.injEq] at h; subst h
+    intro x hx; exact Or.inr (by simpa using clearEnts_old 0 xs x hx)
+  case reverse =>
+    simp only [editReverse, Option.some.injEq] at h; subst h
+    exact fun x hx => Or.inr (movedEnts_old _ _ _ _ x hx)
+  case sort =>
+    simp only [editSort] at h; split at h
+    · simp only [Option.some.injEq] at h; subst h
+      exact fun x hx => Or.inr (movedEnts_old _ _ _ _ x hx)
+    · split at h
+      · simp only [Option.some.injEq] at h; subst h; simp
+      · cases h
   case setSlice a b st vs =>
     simp only [editSetSlice] at h; split at h
     · cases h
@@ -244,7 +261,8 @@ private theorem finish_fresh (r' : T) (ups : List (Update × Path)) (n : Bool) (
   · exact h
 
 /-- FRESHNESS, full strength: after any modelled call — accessor write, `del`, `append`, batched
-`rebind` with any number of pairs, `update`, `clear`, `reverse`, `popitem` — at any depth, with
+`rebind` with any number of pairs, `update`, `clear`, `reverse`, `sort`, `popitem`, `insert`, `pop` / `remove`,
+slice assignment, `del` slice, `*=` — at any depth, with
 notification on or off, every memoised fact of every node is either not computed or equal to a
 fresh computation on the current contents. -/
 theorem C09_fresh (n : Bool) (root : T) (recv : Path) (op : Op) (hf : Fresh root) (hv : OpFresh op) :
@@ -318,14 +336,34 @@ theorem C09_fresh (n : Bool) (root : T) (recv : Path) (op : Op) (hf : Fresh root
       obtain ⟨kv, hkv, rfl⟩ := List.mem_map.1 h
       exact hv kv hkv
   | clear =>
-    exact mapAt_resetChain_fresh rawClear (fun _ => rfl)
-      (fun m kd items _ => ⟨[], rfl, by simp [FreshItems]⟩) recv root hf
+    simp only [step]
+    split
+    · exact applyEdit_fresh root recv n _ hf (fun xs e hxs he y hy => by
+        simp only [editClear, Option.some.injEq] at he; subst he; simp at hy)
+    · exact applyKeyEdit_fresh root recv n _ hf (fun items r hfi he => by
+        simp only [dictClear, Option.some.injEq] at he; subst he; simp [FreshItems])
   | reverse =>
-    exact mapAt_resetChain_fresh rawReverse (fun _ => rfl)
-      (fun m kd items h => ⟨_, rfl, freshItems_reindex _ (freshItems_reverse _ h)⟩) recv root hf
+    exact applyEdit_fresh root recv n _ hf (fun xs e hxs he y hy => by
+      simp only [editReverse, Option.some.injEq] at he; subst he
+      exact hxs y (by simpa using hy))
+  | sort =>
+    exact applyEdit_fresh root recv n _ hf (fun xs e hxs he y hy => by
+      simp only [editSort] at he
+      split at he
+      · simp only [Option.some.injEq] at he; subst he
+        simp only [List.mem_map] at hy
+        obtain ⟨i, _, rfl⟩ := hy
+        simp [Fresh]
+      · split at he
+        · simp only [Option.some.injEq] at he; subst he; exact hxs y hy
+        · cases he)
   | popitem =>
-    exact mapAt_resetChain_fresh rawPopitem (fun _ => rfl)
-      (fun m kd items h => ⟨_, rfl, freshItems_dropLast _ h⟩) recv root hf
+    exact applyKeyEdit_fresh root recv n _ hf (fun items r hfi he => by
+      simp only [dictPopitem] at he
+      split at he
+      · cases he
+      · simp only [Option.some.injEq] at he; subst he
+        exact freshItems_dropLast _ hfi)
   | insert i v =>
     refine applyEdit_fresh root recv n _ hf (fun xs e hxs he y hy => ?_)
     rcases editInsert_vals i v he y hy with h | h
